@@ -151,6 +151,8 @@ type step struct {
 	Rule string `json:"rule"`
 	// ExpectError: the step is expected to be rejected (e.g. duplicate rule name)
 	ExpectError bool `json:"expect_error"`
+	// RecordError: a rejection is recorded in the log and the run continues (the harness then misses the rule)
+	RecordError bool `json:"record_error"`
 }
 
 
@@ -225,7 +227,7 @@ func RunTemplate(path string) (*ast.KnowledgeLibrary, []string, error) {
 		default:
 			return nil, nil, fmt.Errorf("unknown op %s", s.Op)
 		}
-		if (err != nil) != s.ExpectError {
+		if (err != nil) != s.ExpectError && !s.RecordError {
 			return nil, nil, fmt.Errorf("step %d (%s): error=%v but expect_error=%v", i, s.Op, err, s.ExpectError)
 		}
 		log = append(log, fmt.Sprintf("%s:%v", s.Op, err != nil))
